@@ -80,3 +80,7 @@ pub struct WitnessedWrite {
     /// The index of the path in the corresponding witness.
     pub path_index: usize,
 }
+
+#[cfg(kani)]
+#[path = "/verif/units/kani/core_witness.rs"]
+mod verif_kani;
